@@ -58,13 +58,18 @@ Fixpoint times_ok (t0 interval : Z) (k : Z) (times : list Z) : bool :=
   | t :: r => (t0 + k * interval <=? t) && times_ok t0 interval (k + 1) r
   end.
 
-Definition c09_ok (interval : Z) (times values : list Z) (started dropped : Z) (exact : bool) : bool :=
+(* late: how many of the last evaluations happened at or after the earliest instant at which
+   triggering can have stopped (the run's duration counted from before the run was started):
+   those, and the one before them (evaluated in time, handed over too late), may have been
+   refused by the pool, which accepts nothing once triggering has stopped (C09_nothing_after_done,
+   C02). Every other value must have reached the pool. *)
+Definition c09_ok (interval : Z) (times values : list Z) (started dropped : Z) (exact : bool) (late : Z) : bool :=
   match times with
   | [] => false                                   (* the rate is evaluated at least once *)
   | t0 :: _ =>
     times_ok t0 interval 0 times &&
     (negb exact ||
      (let total := zsum values in
-      let last_v := last values 0 in
-      (started + dropped <=? total) && (total - Z.max last_v 0 <=? started + dropped)))
+      let refusable := zsum (map (Z.max 0) (skipn (length values - Z.to_nat (late + 1)) values)) in
+      (started + dropped <=? total) && (total - refusable <=? started + dropped)))
   end.
